@@ -159,6 +159,9 @@ def make_pair(net, variant, rng):
     n = net["nsteps"]
     if variant == "truth_only":
         b["propagation"]["truth_simulation_only"] = True
+        if rng.random() < 0.5:
+            # two factors at once: the truth-only run also writes its output less often (nothing may be skipped "because nobody looks")
+            b["time"]["output_step_sec"] = net["step"] * rng.choice([2, 3])
         tl = a["engines"][0]["targets"]
         if len(tl) >= 2 and n >= 2:
             # both runs: two satellites manoeuvre inside the same physics step (planned, so the filters follow)
@@ -189,6 +192,8 @@ def make_pair(net, variant, rng):
         # multiples, non-multiples and output steps shorter than the physics step
         st = net["step"]
         b["time"]["output_step_sec"] = rng.choice([st * 2, st * 3, st + st // 2, max(2, st // 2), max(2, st - st // 3), st + 7])
+        if rng.random() < 0.4:
+            a["propagation"]["truth_simulation_only"] = b["propagation"]["truth_simulation_only"] = True  # both runs without estimation
     elif variant == "split_calls":
         if n >= 2:
             k = rng.randrange(1, n)
@@ -399,7 +404,8 @@ def eval_pair(ctx, net, variant, rng_seed):
     # agent that lives through the same steps in both runs
     same_agents = ("two_engines", "truth_only", "ukf_params", "policy", "sensor_noise", "seed", "split_calls", "schedule_reverse", "schedule_random", "exec_order_reverse",
                    "exec_order_random", "filter_model", "maneuver_detection", "after_another_scenario")
-    if variant in same_agents and not bad:
+    same_cadence = a["time"].get("output_step_sec") == b["time"].get("output_step_sec")
+    if variant in same_agents and same_cadence and not bad:
         steps_of = lambda t, a_: {k[1] for k in t if k[0] == a_ and len(k) == 2}  # noqa: E731
         rows_of = lambda t, a_: {k[2] for k in t if k[0] == a_ and len(k) == 3}  # noqa: E731
         agents = {k[0] for k in ta} & {k[0] for k in tb}
